@@ -70,10 +70,12 @@ func (m *Module) HandleDagazQuadSample(ctx context.Context, msg hwebsocket.Msg) 
 			WithTag("msg_type", msg.Type)
 	}
 
-	for _, newQuad := range newQuadSample.Samples {
-		quad := NewQuadFromProtobuf(newQuad)
-		m.state.SpatialPartition.InsertQuad(quad)
-	}
+	m.state.withSpatialPartition(func(sp SpatialPartition) {
+		for _, newQuad := range newQuadSample.Samples {
+			quad := NewQuadFromProtobuf(newQuad)
+			sp.InsertQuad(quad)
+		}
+	})
 
 	return nil
 }
@@ -92,17 +94,21 @@ func (m *Module) HandleDagazGetGroundPlane(ctx context.Context, respond hwebsock
 	}
 
 	ray := NewRayFromProtobuf(req.Ray)
-	quadHit, _ := m.state.SpatialPartition.IntersectQuad(ray)
 
-	if quadHit == nil {
-		// create an invalid quad to be able to have a response:
-		quadHit = &Quad{
-			Center:  Vector3f{0, 0, 0},
-			Extents: Vector3f{0, 0, 0},
-			Normal:  Vector3f{0, 0, 0},
+	var sampleGroundQuad *dagazpb.Quad
+	m.state.withSpatialPartition(func(sp SpatialPartition) {
+		quadHit, _ := sp.IntersectQuad(ray)
+
+		if quadHit == nil {
+			// create an invalid quad to be able to have a response:
+			quadHit = &Quad{
+				Center:  Vector3f{0, 0, 0},
+				Extents: Vector3f{0, 0, 0},
+				Normal:  Vector3f{0, 0, 0},
+			}
 		}
-	}
-	sampleGroundQuad := quadHit.ToProtobuf()
+		sampleGroundQuad = quadHit.ToProtobuf()
+	})
 
 	respond.Send(&dagazpb.DagazGetGroundPlaneResponse{
 		Type:      dagazpb.MsgType_MSG_TYPE_DAGAZ_GET_GROUND_PLANE_RESPONSE,
@@ -126,11 +132,14 @@ func (m *Module) HandleDagazGetRegion(ctx context.Context, respond hwebsocket.Re
 			WithTag("msg_type", msg.Type)
 	}
 
-	regionQuads := m.state.SpatialPartition.GetRegion(NewVector3fFromProtobuf(req.Min), NewVector3fFromProtobuf(req.Max))
-	regionQuadsProtobuf := make([]*dagazpb.Quad, len(regionQuads))
-	for i := 0; i < len(regionQuads); i++ {
-		regionQuadsProtobuf[i] = regionQuads[i].ToProtobuf()
-	}
+	var regionQuadsProtobuf []*dagazpb.Quad
+	m.state.withSpatialPartition(func(sp SpatialPartition) {
+		regionQuads := sp.GetRegion(NewVector3fFromProtobuf(req.Min), NewVector3fFromProtobuf(req.Max))
+		regionQuadsProtobuf = make([]*dagazpb.Quad, len(regionQuads))
+		for i := 0; i < len(regionQuads); i++ {
+			regionQuadsProtobuf[i] = regionQuads[i].ToProtobuf()
+		}
+	})
 
 	respond.Send(&dagazpb.DagazGetRegionResponse{
 		Type:      dagazpb.MsgType_MSG_TYPE_DAGAZ_GET_REGION_RESPONSE,
@@ -154,7 +163,10 @@ func (m *Module) HandleDagazGetDebugInfo(ctx context.Context, respond hwebsocket
 			WithTag("msg_type", msg.Type)
 	}
 
-	debugInfo := m.state.SpatialPartition.GetDebugInfo()
+	var debugInfo SpatialDebugInfo
+	m.state.withSpatialPartition(func(sp SpatialPartition) {
+		debugInfo = sp.GetDebugInfo()
+	})
 
 	respond.Send(&dagazpb.DagazGetDebugInfoResponse{
 		Type:           dagazpb.MsgType_MSG_TYPE_DAGAZ_GET_DEBUG_INFO_RESPONSE,
